@@ -173,27 +173,11 @@ class Gen08:
                 "rtypes": rtypes, "rt_default": rt_default}
 
 
-def directed_minimal(g):
-    """the smallest input for each defect found so far (they run first)"""
-    out = []
-    # A. f(x interface{}) string called with nil
-    c = g.make("min-nil-interface-argument", "mock", via="invoke", nparams=1, ptds=[IFACE], variadic=False, missing=False,
-               arity="eq", args=[{"t": IFACE, "v": None}], kind="values", behave="script", nres=1, rtds=[T("string")],
-               values=[{"t": T("string"), "v": hx(b"ok")}], rmode="match", call=b"f", reg_name=b"f", ctx=False, err=True, pool=False)
-    out.append(c)
-    # B. proxy func() interface{} whose service function returns nil
-    c = g.make("min-nil-interface-result", "mock", via="proxy", nparams=0, variadic=False, missing=False, arity="eq", args=[],
-               kind="values", behave="script", nres=1, rtds=[IFACE], values=[{"t": IFACE, "v": None}], rmode="match",
-               ctx=False, err=True, perr=True, pctx=False, pool=False)
-    out.append(c)
-    return out
-
-
 def gen_cases(ctx, reg):
     g = Gen08(ctx, reg)
     quick = ctx.tier == "quick"
     transports = QUICK_TRANSPORTS if quick else ALL_TRANSPORTS
-    cases = directed_minimal(g)
+    cases = c07.corpus_cases("C08")
     per = {"mock": 220, "tcp": 85, "http": 85} if quick else dict((t, 900 if t == "mock" else 350) for t in transports)
     for t in transports:
         for _ in range(per[t]):
@@ -356,7 +340,7 @@ def property_oracle(c, o):
     # exactly once, the right function, the right arguments
     if len(log) != 1:
         key = "function-not-entered" if not log else "function-entered-%d-times" % len(log)
-        if not log and nil_iface_arg(c, o, m):
+        if not log and nil_iface_arg(c, o, m) and "zero Value" in (rem.get("err") or ""):
             key = "nil-interface-argument-never-reaches-function"
         out.append((key, "the function was entered %d times; caller got %s" % (len(log), (rem.get("err") or rem.get("panic") or "ok")[:100])))
         return out
@@ -370,6 +354,11 @@ def property_oracle(c, o):
     want_args = [x.get("solo", x.get("v", "")).replace("(tnil)", "(nil)") for x in o.get("or_args") or []]
     if e["args"] != want_args and any(x.get("solo_err") for x in o.get("or_args") or []):
         want_args = e["args"]       # a value that does not round-trip on its own either: C01's business
+    joint_args = [x.get("v", "").replace("(tnil)", "(nil)") for x in o.get("or_args") or []]
+    if e["args"] != want_args and e["args"] == joint_args:
+        # the codec did what the plain io round trip of the argument list does: the known C07 finding
+        # (a pointer shared between arguments of different static types), not a C08 matter
+        return out + [("@c07-domain", "")]
     if e["args"] != want_args:
         shared = len(set(re.findall(r"\(ptr (\d+)\)", " ".join(o.get("args_sx") or [])))) < len(re.findall(r"\(ptr (\d+)\)", " ".join(o.get("args_sx") or [])))
         key = "pointer-shared-between-arguments-of-different-static-types-decoded-wrong" if shared else "argument-values-differ"
@@ -457,6 +446,8 @@ def compare(c, o, m):
         dis.append("name on the wire: model %s go %s" % (m.get("name"), o["name"]))
     if m.get("log") != fmt_log(o.get("log") or []):
         dis.append("invocation log: model %s go %s" % (m.get("log", "")[:300], fmt_log(o.get("log") or [])[:300]))
+    if any(x.get("err") for x in (o.get("or_res") or [])):
+        return dis      # a result the plain io round trip cannot carry into the declared type either: C01/C06's business
     got_vals = c07.fmt_vals(rem.get("results") or [])
     debug_panic = c["sopts"]["debug"] and c["res"]["kind"] == "panic"
     if c["via"] == "invoke":
@@ -580,6 +571,9 @@ def run(ctx):
         ctx.bump("cases_by_outcome", c["res"]["kind"])
         dis = compare(c, o, m)
         fails = property_oracle(c, o)
+        if any(k == "@c07-domain" for k, _ in fails):
+            ctx.bump("c07_domain_shared_pointer_between_arguments")
+            continue
         for key, what in fails:
             ctx.report("c08:" + key, what + " [transport %s%s, via %s]" % (c["transport"], "+pool" if c["pool"] else "", c["via"]),
                        {"case": c, "observed": c07.slim(o), "model": m, "failing_input": True})
